@@ -71,7 +71,7 @@ def replay_segy(req, tmp):
             src = full[kw['min_il']:kw['max_il'], kw['min_xl']:kw['max_xl']]
         else:
             src = full
-    if prop in ('C01', 'C09', 'C08', 'C11'):
+    if prop in ('C01', 'C09', 'C11'):
         r = R.SgzReader(sgz)
         try:
             if kind == '2d':
@@ -115,6 +115,50 @@ def replay_segy(req, tmp):
         if got != want:
             return dict(reproduced=True, detail='%s: stored hash %s.. != SHA-1 of the source samples %s..' % (what, got.hex()[:12], want.hex()[:12]), extra=dict(outcome='hash'))
         return dict(reproduced=False, detail='%s: hash equals SHA-1 of the source' % what)
+    if prop == 'C08':
+        bad = []
+        try:
+            r = R.SgzReader(sgz)
+            il = il0 + il_step * np.arange(dims[0])
+            xl = xl0 + xl_step * np.arange(dims[1])
+            if (r.n_ilines, r.n_xlines, r.n_samples) != tuple(dims):
+                bad.append('grid %s (inferred grid %s)' % ((r.n_ilines, r.n_xlines, r.n_samples), tuple(dims)))
+            if not np.array_equal(np.asarray(r.ilines), il):
+                bad.append('ilines %s (source %s)' % (np.asarray(r.ilines).tolist(), il.tolist()))
+            if not np.array_equal(np.asarray(r.xlines), xl):
+                bad.append('xlines %s (source %s)' % (np.asarray(r.xlines).tolist(), xl.tolist()))
+            if r.tracecount != len(pos) or r.structured:
+                bad.append('tracecount %s structured %s (source has %d traces on a %dx%d grid)' % (r.tracecount, r.structured, len(pos), dims[0], dims[1]))
+            exp = zfp_image_zero(full, rate)
+            if not bad:
+                vol = quiet(r.read_volume)
+                if vol.shape != exp.shape or not bits_equal(vol, exp):
+                    bad.append('volume differs from the ZFP image of the zero-filled grid')
+                for t in sorted(set([0, len(pos) - 1, min(m_.get('trace', 0), len(pos) - 1)])):
+                    tr = quiet(r.get_trace, t)
+                    i, x = pos[t]
+                    if not bits_equal(np.asarray(tr), exp[i, x]):
+                        bad.append('get_trace(%d) is not source trace %d (grid %d,%d)' % (t, t, i, x))
+                    h = quiet(r.gen_trace_header, t)
+                    for f in ((1, 189, 193) if o.get('detection', 'heuristic') == 'heuristic' else (1, 73, 189, 193)):
+                        if int(h[segyio.tracefield.TraceField(f)]) != int(headers[t][segyio.TraceField(f)]):
+                            bad.append('header %d field %d = %d (source %d)' % (t, f, int(h[segyio.tracefield.TraceField(f)]), int(headers[t][segyio.TraceField(f)])))
+                r.close()
+                for f, ax in ((189, il[:, None] + 0 * xl[None, :]), (193, 0 * il[:, None] + xl[None, :])):
+                    r = R.SgzReader(sgz)      # (a reader that has regenerated headers refuses the padded view by assertion)
+                    g = np.asarray(quiet(r.get_tracefield_values, f))
+                    r.close()
+                    want = np.zeros(dims[:2], dtype=np.int64)
+                    for (i, x) in pos:
+                        want[i, x] = ax[i, x]
+                    if g.shape != want.shape or not np.array_equal(g, want):
+                        bad.append('get_tracefield_values(%d) is not the grid with zeros at holes' % f)
+            r.close()
+        except Exception as e:
+            bad.append('reading back raised %s: %s' % (type(e).__name__, str(e)[:80]))
+        if bad:
+            return dict(reproduced=True, detail='%s: %s' % (what, '; '.join(bad[:5])), extra=dict(outcome='irregular'))
+        return dict(reproduced=False, detail='%s: irregular read-back equals the source' % what)
     if prop in ('C04', 'C05', 'C11'):
         r = R.SgzReader(sgz)
         try:
